@@ -45,13 +45,14 @@ TAB_CONSTS = {
     'thorough': {'NR': '4', 'Spacing': '500', 'Seps': '{0, 1, 2}', 'Windows': '{<<400, 1600>>, <<500, 1500>>, <<600, 1100>>}',
                  'XLinks': 'BOOLEAN'},
 }
-RESID0 = bool(os.environ.get('VERIF_C18_RESID0'))
+RESID0 = os.environ.get('VERIF_C18_RESID0', '1') != '0'      # family with a later chain starting below residue 1 (known finding D13)
 
 
 def _is_resid0(kind, scenario):
     """Signature of the merge-offset collision: a later chain whose first input resid is < 1."""
     sc = scenario.get('scenario', scenario)
-    return any(min(a['old'] for a in m['atoms']) < 1 for m in sc.get('mols', [])[1:])
+    return ('site-type-not-unique' in str(scenario.get('verdict', ''))
+            and any(min(a['old'] for a in m['atoms']) < 1 for m in sc.get('mols', [])[1:]))
 
 
 SIGNATURES = {'D13': _is_resid0}
@@ -416,7 +417,7 @@ def judge_batch(batch, ev, vd):
             for c, k in v['cls'].items():
                 h[c] = h.get(c, 0) + k
             if v['v'] != 'ok':
-                vd.violation('trace-rejected', {'kind': 'trace', 'scenario': sc, 'post': e['post']}, v['v'])
+                vd.violation('trace-rejected', {'kind': 'trace', 'scenario': sc, 'post': e['post'], 'verdict': v['v']}, v['v'])
             if sum(1 for c in ['pair'] + CRITERIA if v['cls'].get(c, 0) > 0) >= 2:
                 ev.nontrivial_case(e['g'])
     return hist
